@@ -52,7 +52,7 @@ def sweep(ctx):
 def _sweep(ctx, targets, base, runs, pk, bad, known):
     for d, pats, flagsets in targets:
         for flags in flagsets:
-            r, err = wt.analyze(d, flags=flags, patterns=pats, timeout=1800 if d in (base, common.REPO) else 300)
+            r, err = wt.analyze(d, flags=flags, patterns=pats, timeout=(1800 if ctx.tier == "thorough" else 600) if d in (base, common.REPO) else 300)
             runs += 1
             if r is None:
                 bad.append("%s %r flags %r: the driver did not finish: %s" % (d, pats, flags, err))
